@@ -323,7 +323,11 @@ impl Number {
     /// units, and possibly apply SI prefixes.
     pub fn prettify(&self, context: &Context) -> Number {
         let unit = self.pretty_unit(context);
-        if let Some(orig) = unit.as_single() {
+        // Choosing an SI prefix raises 1000 to the unit's exponent for every
+        // candidate prefix; that only makes sense, and only stays cheap, for
+        // the exponents people write.
+        let small_power = |power: i64| (-64..=64).contains(&power);
+        if let Some(orig) = unit.as_single().filter(|orig| small_power(orig.1)) {
             use std::collections::HashSet;
             let prefixes = [
                 "milli", "micro", "nano", "pico", "femto", "atto", "zepto", "yocto", "kilo",
